@@ -213,7 +213,7 @@ Definition locate_tol (xs : list pv) (v : pv) (tol : tolv) : res pv :=
   | Some qv =>
     let! ds := mapM (fun x => match py_num x with Some q => Ok (Qabs (q - qv)) | None => Err TypeError end) xs in
     match ds with
-    | [] => Err ValueError     (* np.argmin of an empty sequence *)
+    | [] => Err IndexError     (* an empty axis: nothing is near *)
     | d0 :: t =>
       let m := argmin_q t 1 0 d0 in
       let dm := nth m ds 0%Q in
